@@ -119,7 +119,22 @@ class Case:
             self.samples.append({"case": self.case.get("id"), "obligation": name, "result": res, "what": sample})
         return res
 
-    def merge_uf(self, assumptions, goal, timeout=None, names=None):
+    def screen_envs(self, assumptions, inputs, quat_groups=(), n=2):
+        """concrete environments satisfying the assumptions (random small rationals / rational unit quaternions, else solver models);
+        used only to discard pairs of applications whose arguments differ numerically before asking the solver for a proof"""
+        saved = list(CTX.pre)
+        try:
+            CTX.pre = list(assumptions)
+            envs = self.seed_envs(inputs, quat_groups, n=n)
+        finally:
+            CTX.pre = saved
+        if len(envs) < n:
+            res, sol, _ = CTX.solve(list(assumptions), 3000)
+            if res == "sat":
+                envs.append(self.env_of(sol, list(assumptions)))
+        return envs
+
+    def merge_uf(self, assumptions, goal, timeout=None, names=None, inputs=None, quat_groups=()):
         """congruence-guided rewriting: for pairs of applications of the same abstracted function whose arguments are provably
         equal under the assumptions, replace one result variable by the other in the goal.  Returns (new goal, merged, failed)."""
         timeout = timeout or self.qtimeout
@@ -127,6 +142,21 @@ class Case:
         consts_of(goal, acc, seen)
         merged = failed = 0
         subst = []
+        envs = self.screen_envs(assumptions, inputs, quat_groups) if inputs else []
+
+        def differ_numerically(a, ra):
+            for env in envs:
+                try:
+                    e2 = dict(env)
+                    complete_env(e2, list(a) + list(ra))
+                    va = [CTX.evalf(x, e2) for x in a]
+                    vb = [CTX.evalf(x, e2) for x in ra]
+                except Exception:  # noqa
+                    return False
+                if any(abs(x - y) > 1e-7 * (1 + abs(x) + abs(y)) for x, y in zip(va, vb)):
+                    return True
+            return False
+
         for name, apps in CTX.uf_apps.items():
             if names is not None and not any(name.startswith(n) for n in names):
                 continue
@@ -135,6 +165,8 @@ class Case:
             for v, a in rel:
                 done = False
                 for rv_, ra in reps:
+                    if envs and differ_numerically(a, ra):
+                        continue
                     diff = z3.Or(*[x != y for x, y in zip(a, ra)])
                     r = CTX.check(list(assumptions) + [diff], timeout=timeout)
                     if r == "unsat":
@@ -216,15 +248,19 @@ class Case:
                 sub.append((z, rng.choice(vals)))
             return sub
 
-        for _ in range(40):
-            sub = draw()
-            env = {str(z): float(x) for z, x in sub}
-            try:
-                complete_env(env, q)
-                if all(CTX.evalf(e, env) is True or CTX.evalf(e, env) == True for e in q):  # noqa: E712
-                    return env
-            except Exception:  # noqa
-                break
+        CTX.feq_tol = 1e-9  # rounding noise must not look like a violated equality
+        try:
+            for _ in range(40):
+                sub = draw()
+                env = {str(z): float(x) for z, x in sub}
+                try:
+                    complete_env(env, q)
+                    if all(CTX.evalf(e, env) is True or CTX.evalf(e, env) == True for e in q):  # noqa: E712
+                        return env
+                except Exception:  # noqa
+                    break
+        finally:
+            CTX.feq_tol = None
         phases = []
         if keep_ids:
             phases.append(("keep", 1))
